@@ -287,7 +287,10 @@ BFams == <<"update", "retract", "set_retention", "archive", "tombstone", "purge"
 BItems == << <<"belief", "b", "var">>, <<"belief", "b", "id">>, <<"belief", "b", "tuple">>, <<"slot", "b">>,
              Pat("assertion", "b") >>                                    \* the last one is the control
 BWraps == <<"none", "not", "opt", "union", "optnot">>
-BDims == <<Len(BFams), Len(BItems), Len(BWraps), 2>>
+\* positions of the item: the target itself; a side pattern after the target's pattern; and a side pattern that
+\* FOLLOWS a clean NOT / OPTIONAL / UNION group of the same block (the validator must go on after a nested group)
+BGroups == <<"not", "opt", "union">>
+BDims == <<Len(BFams), Len(BItems), Len(BWraps), 5>>
 BClause(fam, t, w) ==
   LET c == [Cl(fam) EXCEPT !.tgt = IF fam = "export" THEN <<"p", "out">> ELSE <<"h", t>>, !.hasw = TRUE, !.w = w] IN
   CASE fam = "update"        -> [c EXCEPT !.acts = << A("ATTRS", << E("note", FALSE, <<"num", 1>>) >>) >>]
@@ -297,7 +300,9 @@ BClause(fam, t, w) ==
     [] OTHER                 -> c
 BCase(j) == LET d == Dec(j - 1, BDims)  it == BItems[d[2]] IN
             IF d[4] = 1 THEN << BClause(BFams[d[1]], "b", Wrap(BWraps[d[3]], it)) >>                       \* the target itself
-            ELSE << BClause(BFams[d[1]], "t", << Pat("concept", "t") >> \o Wrap(BWraps[d[3]], it)) >>      \* a side pattern
+            ELSE IF d[4] = 2 THEN << BClause(BFams[d[1]], "t", << Pat("concept", "t") >> \o Wrap(BWraps[d[3]], it)) >>  \* a side pattern
+            ELSE << BClause(BFams[d[1]], "t", << Pat("concept", "t"), <<BGroups[d[4] - 2], << Pat("concept", "t") >> >> >>
+                                               \o Wrap(BWraps[d[3]], it)) >>
 
 ---------------------------------------------------------------------------
 (* I - identity selectors of UPSERT CONCEPT.                               *)
